@@ -188,7 +188,7 @@ func (r *verifC29Rec) hook(ev string, a []any) {
 		gs := r.takeGs()
 		if !r.off.Load() {
 			act, cp, w := r.snap()
-			r.tr.Emit("Adjust", "n", a[0], "gs", gs, "active", act, "cap", cp, "waiting", w)
+			r.tr.Emit("Adjust", "v", a[0], "gs", gs, "active", act, "cap", cp, "waiting", w)
 		}
 	}
 }
